@@ -21,6 +21,10 @@ class Module:
         with warnings.catch_warnings():
             warnings.simplefilter('ignore')
             self.tree = ast.parse(src, filename=path)
+        self.reindex()
+
+    def reindex(self):
+        """(Re)build the function / class / parent indexes; called again after the tree has been canonicalised."""
         self.funcs = {}      # local qualname ("Class.meth" / "func") -> FunctionDef
         self.classes = {}    # name -> ClassDef
         self.parents = {}
@@ -170,6 +174,13 @@ class Repo:
                     if rn:
                         self.renamed = getattr(self, 'renamed', {})
                         self.renamed[rel] = rn
+                if os.environ.get('SA_NO_CANON') != '1':
+                    from .canon import canonicalise
+                    cn = canonicalise(rel, self.modules[rel])
+                    if cn:
+                        self.modules[rel].reindex()
+                        self.canonicalised = getattr(self, 'canonicalised', {})
+                        self.canonicalised[rel] = cn
             except SyntaxError as e:
                 self.errors.append('%s: %s' % (rel, e))
         self._fi = {}
